@@ -34,10 +34,12 @@ PROPS = {
     "C06": {"quick": [J("^vhC06_(inside_L2|wait_L1|collect_L2)$", preempt=1, samples=3)], "thorough": [J("^vhC06_(inside_L3|wait_L2|collect_L3)$", preempt=2, samples=4)], "bounds": {}, "assumptions": []},
     "C08": {"quick": [J("^vhC08_(sync_L2|handoff_n2)$", preempt=1, samples=3), J("^vhC08_handoff_n5$", preempt=0, samples=2)], "thorough": [J("^vhC08_(sync_L3|handoff_n3)$", preempt=2, samples=4), J("^vhC08_handoff_n5$", preempt=1, samples=2, maxpaths=2000000)], "bounds": {}, "assumptions": []},
     "C14": {"quick": [J("^vhC14_early_L2$|^vhC14_multi_L2$", samples=4), J("^vhC03_subconc_(2|3)$", preempt=2, samples=1)], "thorough": [J("^vhC14_early_L3$|^vhC14_multi_L2$", preempt=1, samples=6), J("^vhC03_subconc_(2|3)$", preempt=3, samples=1)], "bounds": {}, "assumptions": []},
-    "C17": {"quick": [J("^vhC17_.*_L2$", preempt=1, samples=3)], "thorough": [J("^vhC17_.*_L3$", preempt=1, samples=4)], "bounds": {}, "assumptions": []},
+    "C17": {"quick": [J("^vhC17_.*_L2$", preempt=1, samples=3, timeshim=True)], "thorough": [J("^vhC17_.*_L3$", preempt=1, samples=4, timeshim=True)], "bounds": {}, "assumptions": []},
     "C02": {"quick": [J("^vhC02_core_(2x2|3x1)$", preempt=0, samples=2), J("^vhC02_core_2x2$", preempt=1, samples=3, maxpaths=600000),
-                      J("^vhC10_conc(via)?_|^vhC05_conc_v1$", preempt=0, samples=1, only_msgs="overlapped", maxpaths=600000)],
-            "thorough": [J("^vhC02_core_(2x2|3x1)$", preempt=2, samples=6, maxpaths=5000000), J("^vhC10_conc(via)?_|^vhC05_conc_v2$", preempt=1, samples=1, only_msgs="overlapped", maxpaths=5000000)], "bounds": {"threads": 3, "preemptions_quick": 1, "preemptions_thorough": 2}, "assumptions": []},
+                      J("^vhC10_conc(via)?_|^vhC05_conc_v1$", preempt=0, samples=1, only_msgs="overlapped", maxpaths=600000),
+                      J("^vhC13_time_n1$", preempt=1, samples=2, timeshim=True, only_msgs="overlapped|grammar|after a terminal|never emitted")],
+            "thorough": [J("^vhC02_core_(2x2|3x1)$", preempt=2, samples=6, maxpaths=5000000), J("^vhC10_conc(via)?_|^vhC05_conc_v2$", preempt=1, samples=1, only_msgs="overlapped", maxpaths=5000000),
+                         J("^vhC13_time_n2$", preempt=2, samples=2, timeshim=True, only_msgs="overlapped|grammar|after a terminal|never emitted", maxpaths=3000000)], "bounds": {"threads": 3, "preemptions_quick": 1, "preemptions_thorough": 2}, "assumptions": []},
     "C03": {"quick": [J("^vhC03_(sub_K3|cut_L2)$", samples=4), J("^vhC03_subconc_(2|3)$", preempt=0, samples=1), J("^vhC03_subconc_(2|3)$", preempt=2, samples=1), J("^vhC11_(share|conn)_K4$", samples=2, only_msgs="upstream subscription|source subscription")], "thorough": [J("^vhC03_(sub_K4|cut_L3)$", samples=8), J("^vhC03_subconc_(2|3)$", preempt=0, samples=1), J("^vhC03_subconc_(2|3)$", preempt=3, samples=1), J("^vhC11_(share|conn)_K5$", samples=2, only_msgs="upstream subscription|source subscription")], "bounds": {}, "assumptions": []},
     "C07": {"quick": [J("^vhC07_.*_L2$", samples=4), J("^vhC08_handoff_n(2|5)$", preempt=0, samples=1, only_msgs="lost or duplicated|terminal notification")], "thorough": [J("^vhC07_.*_L3$", samples=8), J("^vhC08_handoff_n(3|5)$", preempt=1, samples=1, only_msgs="lost or duplicated|terminal notification", maxpaths=2000000)], "bounds": {}, "assumptions": []},
     "C09": {"quick": [J("^vhC09_.*_L2$|^vhC09_multi_T2$", samples=4), J("^vhC09_async_n2$", samples=3, timeshim=True), J("^vhC11_share_K4$", samples=2, only_msgs="context other than")], "thorough": [J("^vhC09_.*_L3$|^vhC09_multi_T3$", samples=8), J("^vhC09_async_n3$", preempt=1, samples=3, timeshim=True), J("^vhC11_share_K5$", samples=2, only_msgs="context other than")], "bounds": {}, "assumptions": []},
@@ -45,9 +47,11 @@ PROPS = {
     "C01": {"quick": [J("^vhC01_.*_L3$", samples=6), J("^vhC04_chain_L2$", samples=2, only_msgs="after a terminal"), J("^vhC02_core_3x1$", preempt=0, samples=2), J("^vhC05_conc_v1$", preempt=0, samples=1, only_msgs="after a terminal")], "thorough": [J("^vhC01_.*_L4$", samples=12), J("^vhC02_core_3x1$", preempt=0, samples=2), J("^vhC02_core_2x2$", preempt=1, samples=2, maxpaths=1500000), J("^vhC05_conc_v1$", preempt=0, samples=1, only_msgs="after a terminal", maxpaths=1500000)],
             "bounds": {"script_length_quick": 3, "script_length_thorough": 4}, "assumptions": []},
     "C11": {"quick": [J("^vhC11_.*_K4$", samples=4), J("^vhC11_conc_2$", preempt=0, samples=2), J("^vhC11_conc_2$", preempt=1, samples=2)], "thorough": [J("^vhC11_.*_K5$", samples=8), J("^vhC11_conc_2$", preempt=0, samples=2), J("^vhC11_conc_2$", preempt=2, samples=2)], "bounds": {}, "assumptions": []},
-    "C13": {"quick": [J("^vhC02_core_2x2$|^vhC06_wait_L1$|^vhC08_handoff_n2$|^vhC17_(tochannel|fromchannel)_L2$", preempt=1, races=True, only_kinds=["race", "crash"], samples=2, maxpaths=600000),
+    "C13": {"quick": [J("^vhC02_core_2x2$|^vhC06_wait_L1$|^vhC08_handoff_n2$", preempt=1, races=True, only_kinds=["race", "crash"], samples=2, maxpaths=600000),
+                      J("^vhC17_(tochannel|fromchannel)_L2$|^vhC13_time_n1$", preempt=1, races=True, only_kinds=["race", "crash"], samples=2, maxpaths=600000, timeshim=True),
                       J("^vhC10_conc_|^vhC05_conc_v1$", preempt=0, races=True, only_kinds=["race", "crash"], samples=1, maxpaths=600000)],
-            "thorough": [J("^vhC02_core_(2x2|3x1)$|^vhC06_wait_L2$|^vhC08_handoff_n3$|^vhC17_(tochannel|fromchannel)_L2$", preempt=2, races=True, only_kinds=["race", "crash"], samples=2),
+            "thorough": [J("^vhC02_core_(2x2|3x1)$|^vhC06_wait_L2$|^vhC08_handoff_n3$", preempt=2, races=True, only_kinds=["race", "crash"], samples=2),
+                         J("^vhC17_(tochannel|fromchannel)_L2$|^vhC13_time_n2$", preempt=2, races=True, only_kinds=["race", "crash"], samples=2, maxpaths=3000000, timeshim=True),
                          J("^vhC10_conc_|^vhC05_conc_v2$|^vhC11_conc", preempt=1, races=True, only_kinds=["race", "crash"], samples=1, maxpaths=3000000)], "bounds": {}, "assumptions": []},
     "C15": {"quick": [J("^vhC15_.*_A2$", samples=4)], "thorough": [J("^vhC15_.*_A(2|3)$", samples=8)], "bounds": {}, "assumptions": []},
     "C16": {"quick": [J("^vhC16_.*2$", samples=2, timeshim=True)], "thorough": [J("^vhC16_(delay|interval|timeout|throttle).*3$|^vhC16_sample_n2$", samples=2, timeshim=True)], "bounds": {}, "assumptions": []},
